@@ -265,10 +265,38 @@ def tlc_run(module, cfg, tag, timeout=3000, workers=None, env_extra=None, simula
     return st, outp
 
 
+def _keep_sample(dirname, module, tag, events, per_type=6):
+    os.makedirs(dirname, exist_ok=True)
+    rnd = random.Random(7)
+    by = {}
+    stateful = any(e.get("ev") == "reset" for e in events)
+    if stateful:        # groups: a reset event and everything up to the next one
+        groups, cur = [], []
+        for e in events:
+            if e.get("ev") == "reset" and cur:
+                groups.append(cur)
+                cur = []
+            cur.append(e)
+        if cur:
+            groups.append(cur)
+    else:
+        groups = [[e] for e in events]
+    for g in groups:
+        by.setdefault(g[-1].get("ev"), []).append(g)
+    with open(os.path.join(dirname, "%s.%s.ndjson" % (module, tag)), "w") as f:
+        for ev, gs in sorted(by.items(), key=lambda x: str(x[0])):
+            for g in (gs if len(gs) <= per_type else rnd.sample(gs, per_type)):
+                if len(json.dumps(g)) < 20000:
+                    f.write(json.dumps(g, separators=(",", ":")) + "\n")
+
+
 def tlc_judge(module, cfg, events, tag, timeout=3000, chunk=None):
     """Trace validation: write events as ndjson, run the trace spec, return (n_consumed, bad_indices, stats).
     bad indices are 0-based positions into `events`."""
     os.makedirs(os.path.join(WORK, "trace"), exist_ok=True)
+    keep = os.environ.get("DX_KEEP_TRACE")
+    if keep:            # bin/selftest capture: keep a sample of the judged events per trace specification
+        _keep_sample(keep, module, tag, events)
     chunks = [events] if not chunk else [events[i:i + chunk] for i in range(0, len(events), chunk)]
     jobs = []
     off = 0
